@@ -20,6 +20,9 @@ pub struct StreamRng {
     pub draws: Vec<u64>,
     /// (kind) of non-fill draws, recorded as negative markers: 4 => next_u32, 8 => next_u64
     pub total_draws: u64,
+    /// fault injection: Some(n) => the n-th draw from now fails (try_fill_bytes returns Err, the infallible
+    /// entry points panic with the RNG's own message, as OsRng does when the OS source is unavailable)
+    pub fail_at: Option<u64>,
 }
 
 impl StreamRng {
@@ -32,6 +35,7 @@ impl StreamRng {
             block: [0u8; 64],
             draws: Vec::new(),
             total_draws: 0,
+            fail_at: None,
         };
         r.load_block(0);
         r
@@ -59,7 +63,28 @@ impl StreamRng {
         self.block[(i % 64) as usize]
     }
 
+    fn gate(&mut self) -> bool {
+        match self.fail_at {
+            Some(1) => {
+                self.fail_at = None;
+                true
+            }
+            Some(n) => {
+                self.fail_at = Some(n - 1);
+                false
+            }
+            None => false,
+        }
+    }
+
     fn fill(&mut self, dest: &mut [u8]) {
+        if self.gate() {
+            panic!("okv-rng-failure: the caller-supplied RNG failed");
+        }
+        self.fill_inner(dest)
+    }
+
+    fn fill_inner(&mut self, dest: &mut [u8]) {
         for b in dest.iter_mut() {
             *b = self.next_byte();
         }
@@ -87,7 +112,10 @@ impl RngCore for StreamRng {
         self.fill(dest)
     }
     fn try_fill_bytes(&mut self, dest: &mut [u8]) -> Result<(), rand::Error> {
-        self.fill(dest);
+        if self.gate() {
+            return Err(rand::Error::from(std::num::NonZeroU32::new(rand::Error::CUSTOM_START + 7).unwrap()));
+        }
+        self.fill_inner(dest);
         Ok(())
     }
 }
@@ -104,6 +132,8 @@ thread_local! {
     pub static KSF_INST: RefCell<u64> = RefCell::new(0);
     pub static PANIC_INFO: RefCell<Option<(String, String)>> = RefCell::new(None);
     pub static DH_LOG_ON: RefCell<bool> = RefCell::new(true);
+    /// when set, ExtKey's serialized form is an opaque handle (bytes xor 0xA5), not the raw scalar
+    pub static EXT_OPAQUE: RefCell<bool> = RefCell::new(false);
 }
 
 pub fn drain(log: &'static std::thread::LocalKey<RefCell<Vec<Value>>>) -> Vec<Value> {
